@@ -811,6 +811,20 @@ class HTTPResponse(BaseHTTPResponse):
             if self._original_response and self._original_response.isclosed():
                 self.release_conn()
 
+    def _decode(
+        self, data: bytes, decode_content: bool | None, flush_decoder: bool
+    ) -> bytes:
+        try:
+            return super()._decode(data, decode_content, flush_decoder)
+        except DecodeError:
+            # The rest of the body cannot be interpreted any more, so the
+            # connection must not be handed to another request.
+            if self._original_response:
+                self._original_response.close()
+            if self._connection:
+                self._connection.close()
+            raise
+
     def _fp_read(
         self,
         amt: int | None = None,
